@@ -211,6 +211,7 @@ def case_dmrg(ctx, i):
     ctx.count('diag.' + diag)
     scale = max(1.0, float(np.linalg.norm(Hd, 2)))
     upd = []  # history of local updates: (sweep, i0, E_total reported, dense <H> afterwards or None, truncation eps, mixer on)
+    mixer_class = [None]  # class of the mixer object last seen in an update
 
     try:
         eng = getattr(dmrg, engine)(psi, M, opts)
@@ -227,6 +228,8 @@ def case_dmrg(ctx, i):
                 e = nrm = None
             upd.append((eng.sweeps, eng.i0, float(np.real(res['E0'])) if res.get('E0') is not None else None, e, float(res['err'].eps),
                         eng.mixer is not None, nrm))
+            if eng.mixer is not None:
+                mixer_class[0] = type(eng.mixer).__name__
             return res
 
         eng.update_local = update_local
@@ -283,7 +286,12 @@ def case_dmrg(ctx, i):
     nrm = np.linalg.norm(v)
     nt = np.max(np.abs(psi.norm_test()))
     if not (abs(nrm - 1) <= 1e-8) or nt > 1e-7:
-        ctx.violation('DMRG%s:returned-state-not-normalised-or-not-canonical' % late, '%s: |psi| = %r, norm_test %r' % (tag, nrm, nt), case)
+        if late:
+            # (recorded finding; keyed by what is off and by the mixer class, so that other combinations still count)
+            what_off = 'not-normalised' if not (abs(nrm - 1) <= 1e-8) else 'not-canonical'
+            ctx.violation('DMRG%s:returned-state-%s:%s' % (late, what_off, mixer_class[0]), '%s: |psi| = %r, norm_test %r' % (tag, nrm, nt), case)
+        else:
+            ctx.violation('DMRG:returned-state-not-normalised-or-not-canonical', '%s: |psi| = %r, norm_test %r' % (tag, nrm, nt), case)
         if not (abs(nrm - 1) <= 1e-2):
             return
     v = v / nrm
@@ -515,7 +523,10 @@ def case_idmrg(ctx, i):
     except Exception:
         smin = 0.0
     if not (nt <= 1e-8):
-        ctx.violation('DMRG%s:returned-state-not-normalised-or-not-canonical' % late, 'infinite %s: norm_test %r' % (engine, nt), case)
+        if late:
+            ctx.violation('DMRG%s:returned-state-not-canonical:%s' % (late, type(eng.mixer).__name__), 'infinite %s: norm_test %r' % (engine, nt), case)
+        else:
+            ctx.violation('DMRG:returned-state-not-normalised-or-not-canonical', 'infinite %s: norm_test %r' % (engine, nt), case)
         if not (nt <= 1e-3):
             return
     e_mpo = float(np.real(M.H_MPO.expectation_value(psi)))
@@ -599,8 +610,18 @@ def case_vumps(ctx, i):
         # Schmidt values at round-off level: the environments of VUMPS (inverse-free, but built from transfer-matrix eigenvectors
         # of an almost rank-deficient state) lose precision there -- numerical regime, only the state itself is judged
         ctx.count('vumps.ill_conditioned')
-    elif not (abs(E - e_mpo) <= 1e-6):
-        ctx.violation('%s:reported-energy-differs-from-H_MPO.expectation_value' % engine, 'E %r vs %r' % (E, e_mpo), case)
+    else:
+        # VUMPS reports the energy found in the last local problems, i.e. of the iterate before the last update of the tensors: for
+        # a run stopped before convergence the value lags by what one sweep still changes (observed: 5e-4 after 2 sweeps, 1e-5 after
+        # 3, 1e-9 after 5, 1e-14 after 8), so the change of the energy in the last sweep bounds the allowed difference
+        dE = eng.sweep_stats.get('Delta_E', [])
+        lag = 2 * abs(float(dE[-1])) if len(dE) and np.isfinite(dE[-1]) else np.inf
+        ctx.count('vumps.energy_compared')
+        if lag <= 1e-7:
+            ctx.count('vumps.energy_compared_converged')
+        if not (abs(E - e_mpo) <= 1e-6 + lag):
+            ctx.violation('%s:reported-energy-differs-from-H_MPO.expectation_value' % engine, 'E %r vs %r (last sweep changed E by %r)' %
+                          (E, e_mpo, float(dE[-1]) if len(dE) else None), case)
     if e_mpo < e0 - 1e-7:
         ctx.violation('%s:energy-density-below-exact' % engine, 'e = %r exact %r' % (e_mpo, e0), case)
     if not short and e_mpo - e0 > {2: 2e-2, 3: 5e-3}.get(chi, 1e-4):
